@@ -52,7 +52,10 @@ def generate(tier, seed):
         cases.append({"cid": f"mix-free-{i}", "family": "mixture-free", "kind": "solve", "spec": spec,
                       "plan": {"solver": {"random_values": True}, "py_seed": seed + i}})
     # L7: the repository's own tests under the universal monitors (every tier)
-    cases.append({"cid": "suite-replay", "family": "suite", "kind": "suite", "jobs": 16})
+    slow = ["test_solver.py::test_create_start_latest_objective_big_problem",
+            "test_solver.py::test_create_start_earliest_objective_big_problem", "test_task.py::test_tasks_contiguous"]
+    cases.append({"cid": "suite-replay", "family": "suite", "kind": "suite", "jobs": 16,
+                  "deselect": slow if tier == "quick" else []})
     return cases
 
 
